@@ -556,7 +556,9 @@ def history_order_rule(ctx, res, rule: str) -> None:
                 and isinstance(x.value, ast.Name)]
         return subs[0] if len(subs) == 1 else None
 
-    for x in walk_local(ld.node):
+    from .common import inline_private_calls
+    ld_node = inline_private_calls(idx, ld)  # the loops may be a private step (`self._append_loaded(self._undo_list, result[0], to_change)`): read in place
+    for x in walk_local(ld_node):
         if isinstance(x, ast.For):
             sub = slot_in(x.iter)
             ins = [c for c in calls_in(x) if isinstance(c.func, ast.Attribute) and c.func.attr in ("append", "insert", "appendleft") and canon(c.func.value)]
